@@ -23,7 +23,7 @@ RULE = ('import form of module A x import form of module B (incl. colliding alia
         're-parse on a reset gin; negative menu (foreign imports, reserved name, late/aliased enabling, unknown feature, '
         'missing attribute). non-trivial = two modules or an alias involved.')
 ASSUMPTIONS = ['generated package c19pkg on sys.path (created per run, removed at exit)', 'in-memory reader for included files']
-WITNESSES = ['library_registered_nested_class', 'nested_class_method_configured', 'bound_name_equal_to_package', 'wrapper_and_wrapped_distinct', 'exact_object_configured', 'spellings_alias_same_configurable', 'method_configured', 'nested_class_configured',
+WITNESSES = ['spellings_one_configurable', 'library_registered_nested_class', 'nested_class_method_configured', 'bound_name_equal_to_package', 'wrapper_and_wrapped_distinct', 'exact_object_configured', 'spellings_alias_same_configurable', 'method_configured', 'nested_class_configured',
              'reference_survives_method_registration', 'foreign_import_rejected', 'reserved_gin_rejected',
              'late_enabling_rejected', 'aliased_enabling_rejected', 'unknown_feature_rejected', 'config_str_reparses',
              'colliding_names_realiased', 'missing_attribute_rejected']
@@ -705,6 +705,63 @@ def run_nested(case, res):
     res.w('nested_class_method_configured')
 
 
+# different spellings (and files) of one object address one configurable; references made under one spelling keep
+# working when a method is configured under another
+SPELL_HEAD = 'from __gin__ import dynamic_registration\n'
+SPELLINGS = {
+    'method_in_later_file_other_alias': (
+        [SPELL_HEAD + "import c19tool.c19tool as a\na.consume.source = @a.Trainer()\na.Trainer.lr = 1\n",
+         SPELL_HEAD + "import c19tool.c19tool as b\nb.Trainer.fit.epochs = 3\n"], {'lr': 1, 'fit': ('fit', 3)}),
+    'two_spellings_one_file': (
+        [SPELL_HEAD + "import c19tool.c19tool as a\nfrom c19tool import c19tool\na.Trainer.lr = 1\n"
+         "a.consume.source = @a.Trainer()\nc19tool.Trainer.fit.epochs = 3\n"], {'lr': 1, 'fit': ('fit', 3)}),
+    'binding_under_second_spelling': (
+        [SPELL_HEAD + "import c19tool.c19tool as a\nfrom c19tool import c19tool\na.consume.source = @a.Trainer()\n"
+         "c19tool.Trainer.lr = 7\n"], {'lr': 7, 'fit': ('fit', 'de')}),
+    'reference_and_method_in_one_list': (
+        [SPELL_HEAD + "import c19tool.c19tool as a\na.consume.source = [@a.Trainer(), @a.Trainer.fit]\na.Trainer.fit.epochs = 3\n"],
+        {'lr': None, 'fit': ('fit', 3)}),
+    'reference_in_earlier_file_method_in_included': (
+        [SPELL_HEAD + "from c19tool import c19tool as t\nt.consume.source = @sc/t.Trainer()\nsc/t.Trainer.lr = 5\ninclude 'c19_sp.gin'\n"],
+        {'lr': 5, 'fit': ('fit', 3)}),
+}
+
+
+def run_spelling(case, res):
+  name = case[1]
+  texts, want = SPELLINGS[name]
+  harness.hard_reset()
+  MEM.clear()
+  MEM['c19_sp.gin'] = SPELL_HEAD + "import c19tool.c19tool as other\nother.Trainer.fit.epochs = 3\n"
+  res.case(tuple(case), True)
+  import c19tool  # pylint: disable=import-outside-toplevel
+  m = c19tool.c19tool
+
+  def observe():
+    v = gin.get_configurable(m.consume)()
+    inst = v[0] if isinstance(v, list) else v
+    return {'lr': inst.lr, 'fit': inst.fit()}
+  two_methods = None
+  try:
+    for t in texts:
+      gin.parse_config(t)
+    got = observe()
+    emitted = gin.config_str()
+    harness.hard_reset()
+    MEM['c19_sp.gin'] = SPELL_HEAD + "import c19tool.c19tool as other\nother.Trainer.fit.epochs = 3\n"
+    gin.parse_config(emitted)
+    again = observe()
+  except Exception as e:  # pylint: disable=broad-except
+    res.violation('spellings_one_configurable', '%r: configs %r raised %r' % (case, texts, e), list(case))
+    return
+  res.outcome('spelling')
+  if got != want or again != want:
+    res.violation('spellings_one_configurable', '%r: configs %r: the object reached through the stored reference sees %r '
+                  '(after re-parsing the config string %r), expected %r' % (case, texts, got, again, want), list(case))
+  else:
+    res.w('spellings_one_configurable')
+
+
 LIBREG = {
     'nested_binding': "import c19lib\nc19lib.Optimizer.Schedule.warmup = 10\n",
     'nested_reference': "import c19lib as L\nL.Optimizer.Schedule.warmup = 10\nL.consume.source = @L.Optimizer.Schedule()\n",
@@ -750,6 +807,8 @@ def run_libreg(case, res):
 
 
 def gen(tier):
+  for n in SPELLINGS:
+    yield ['spelling', n]
   for n in LIBREG:
     yield ['libreg', n]
   for fi in range(len(NESTED_FORMS)):
@@ -784,7 +843,7 @@ def run_shard(i, tier):
     if n % NSH != i:
       continue
     try:
-      {'neg': run_negative, 'multi': run_multi, 'plain': run_plain, 'special': run_special, 'nested': run_nested, 'libreg': run_libreg}.get(c[0], run_case)(c, res)
+      {'neg': run_negative, 'multi': run_multi, 'plain': run_plain, 'special': run_special, 'nested': run_nested, 'libreg': run_libreg, 'spelling': run_spelling}.get(c[0], run_case)(c, res)
     except Exception:  # pylint: disable=broad-except
       import traceback
       res.extra['harness_error'] = traceback.format_exc() + '\ncase=%r' % (c,)
@@ -797,6 +856,6 @@ def run_shard(i, tier):
 
 def replay(c):
   res = core.Result()
-  {'neg': run_negative, 'multi': run_multi, 'plain': run_plain, 'special': run_special, 'nested': run_nested, 'libreg': run_libreg}.get(c[0], run_case)(c, res)
+  {'neg': run_negative, 'multi': run_multi, 'plain': run_plain, 'special': run_special, 'nested': run_nested, 'libreg': run_libreg, 'spelling': run_spelling}.get(c[0], run_case)(c, res)
   harness.hard_reset()
   return res
